@@ -1195,6 +1195,11 @@ class Evaluator:
 
     def call_ext(self, fv: ExtRef, args, kwargs, st: State, ctx: Ctx, node=None) -> AV:
         mod, name = fv.mod, fv.attr
+        hook = self.hooks.get(f'ext:{mod}.{name}')
+        if hook is not None:
+            r = hook(self, fv, args, kwargs, st)
+            if r is not None:
+                return r
         if mod == 'math' or (mod == 'builtins' and name in ('abs', 'min', 'max', 'float', 'int', 'round')):
             return self.lift(lambda *xs: self.math_call(mod, name, list(xs), st, ctx), *args)
         if mod == 'object' and name == '__new__':
@@ -1287,6 +1292,8 @@ class Evaluator:
                 raise Undecided(f'{name}() of {xs[0].cls.name}')
             return self.call_func(m, [], {}, st, ctx, self_val=xs[0])
         if name in ('float', 'int') and xs and isinstance(xs[0], Const) and isinstance(xs[0].value, str):
+            if xs[0].value.strip().lower() in ('nan', 'inf', '-inf', '+inf'):
+                return Const(f'<float {xs[0].value.strip().lower()}>')
             raise Undecided('number from string')
         v = [self.scalar(x) for x in xs]
         if name == 'float':
